@@ -23,7 +23,8 @@ RULE = ("per-run seed -> one document-level operation sequence organised in roun
         "group members must stay adjacent and in order; optimize must physically drop deleted documents and removed "
         "fields; without deletions collection statistics must not depend on the layout. Non-trivial = >=2 layouts, each "
         "with >=1 commit; distinct = distinct SHA-256 over the layouts' event logs."
-        ' 20% of runs end every layout with remove_field + ix.optimize(): the removed field must be physically gone.')
+        ' 20% of runs end every layout with remove_field + ix.optimize(): the removed field must be physically gone.'
+        ' 30% of runs add a layout driven through a BufferedWriter (flush timer thread + limit).')
 ASSUMPTIONS = ["document order between separately added documents is not part of the logical content (merges may permute segments); order inside a group is",
                "the key discipline of C07 is applied so that the operation sequence has the same meaning under every partition into commits",
                "analysis is trusted for deriving expected postings"]
